@@ -20,6 +20,11 @@ open Std
 
 namespace DD
 
+/-- the exception raised, if any -/
+def raisedErr {α} : Except Err α → Option Err
+  | .error e => some e
+  | .ok _ => none
+
 /-! ### three outcomes -/
 
 /-- outcome of a computation started in `m`: a result satisfying `Post`, or an exception — the
